@@ -101,6 +101,7 @@ def check(ctx):
     ctx.rule("R3", "in-memory counters move together: append grows buffer and _len on the same paths; every filtered command in the flusher is accounted by skip(1); flush snapshots the buffer before resetting it", floor=5)
     ctx.rule("R4", "FIFO ticket protocol: every queue.append(self) is followed on every normal path by wait_for(front) .. popleft() .. notify_all() under the condition; the front test compares with queue[0]", floor=6)
     ctx.rule("R6", "a read is served from the in-memory tail or from the file opened under the reader's own ticket; per-history state it is served from otherwise (a read cache) is dropped by every method that rewrites the history file", floor=3)
+    ctx.rule("R10", "a slice asked of the history reaches the stored sequences as the caller gave it (or as the index list range(*s.indices(n))): no read path of the history backends or of the lazy JSON reader rebuilds it as slice(*s.indices(n)) - for a negative step indices() answers stop = -1 for 'run to the beginning', which as a slice bound means 'the last element', so hist[::-1] would come back empty while len, integer indexing and items() say otherwise", floor=3)
     ctx.rule("R9", "the session's own file is recognised among the enumerated history files: the enumeration hands out the paths as the directory listing spells them (no realpath / abspath / normpath on the way), and every `== <own file>` test compares a str with a str - the session's file name is stored as a str whatever the caller handed over ($XONSH_HISTORY_FILE arrives as a pathlib.Path) - otherwise the session's flushed commands are listed twice", floor=3)
     ctx.rule("R8", "one definition of 'how many commands are there': the raw append counter (which still counts commands a flush skipped) is read by JsonHistory.__len__ only; every index computation - the memory/disk boundary in particular - starts from len(), never from the counter itself", floor=1)
     ctx.rule("R7", "SQLite backend: a command is left out as a repeat only when its recorded text equals the recorded text of the previous entry - the comparison, the stored text and the remembered text are one expression", floor=3)
@@ -374,6 +375,7 @@ def check(ctx):
     _sqlite_dedup(ctx)
     _raw_counter_private(ctx)
     _own_file_recognised(ctx)
+    _slices_not_rebuilt(ctx)
 
 
 def _sqlite_dedup(ctx):
@@ -555,6 +557,35 @@ def _raw_counter_private(ctx):
                 n += 1
                 ok = q in allowed
                 ctx.ob("R8", f"{HJ}:{q}", f"`{short(stmt_of(a), 60)}`: the raw counter `{a.attr}` is read only to compute len()", ok, key=f"{q}|raw-counter-read|{a.attr}", where=loc(a))
+
+
+def _slices_not_rebuilt(ctx):
+    """R10: slice(*x.indices(n)) is not the slice x."""
+    n = 0
+    for rel in ("xonsh/history/base.py", "xonsh/history/json.py", "xonsh/history/sqlite.py", "xonsh/history/dummy.py", "xonsh/lib/lazyjson.py"):
+        try:
+            m = ctx.repo.module(rel)
+        except Exception:
+            continue
+        for q, f in m.functions():
+            handles = [x for x in walk_local(f) if isinstance(x, ast.Call) and call_name(x) == "isinstance" and len(x.args) == 2 and unparse(x.args[1]) == "slice"]
+            uses = [c for c in calls_in(f) if isinstance(c.func, ast.Attribute) and c.func.attr == "indices"]
+            if not handles and not uses:
+                continue
+            defs = df.all_defs(f)
+            bad = None
+            for c in calls_in(f):
+                if call_name(c) != "slice":
+                    continue
+                for a in c.args:
+                    e = a.value if isinstance(a, ast.Starred) else a
+                    srcs = [e] + ([d.value for d in defs.get(e.id, []) if d.value is not None] if isinstance(e, ast.Name) else [])
+                    if any(isinstance(x, ast.Call) and isinstance(x.func, ast.Attribute) and x.func.attr == "indices" for s_ in srcs for x in ast.walk(s_)):
+                        bad = c
+            n += 1
+            ctx.ob("R10", f"{rel}:{q}", "a slice is not rebuilt from its indices()", bad is None, key=f"{q}|slice-rebuilt-from-indices", where=loc(bad) if bad is not None else loc(f), detail=None if bad is None else f"`{short(bad, 50)}`: for a negative step the stop that indices() answers for 'to the beginning' is -1, which the rebuilt slice reads as 'the last element' - the result is empty")
+    if n == 0:
+        raise AnalysisError("no slice-handling read path found in the history backends")
 
 
 def _own_file_recognised(ctx):
